@@ -311,6 +311,9 @@ func (p *Policer) processNodes(ctx context.Context, plc *processPlacementContext
 			if status := plc.checkedNodes.processStatus(nodes[i]); status >= 0 {
 				if status > 0 {
 					candidates = append(candidates, nodes[i])
+				} else {
+					// holder known from another node list of the same object
+					shortage--
 				}
 
 				continue
